@@ -20,7 +20,8 @@ Record cfg := mkcfg { dialT : N; writeT : N; readT : N; qcap : N; qmax : Z (* Ob
 (* rtimer.After(T): the wheel ticks every T/accuracy; the returned slot closes between T - T/accuracy and T *)
 Definition lo (T : N) : N := T - T / c_rtimer_accuracy.
 
-Inductive outcome := Reply (p : N) | Timeout | Error | Sent (* one-way: the request was queued *).
+Inductive outcome := Reply (p : N) | Timeout | Error | Sent (* one-way: the request was queued *)
+| Cancelled (* the caller cancelled its context while the call waited: the code returns its timeout error *).
 
 (* program counter of a caller inside TarsInvoke *)
 Inductive pc :=
@@ -68,7 +69,8 @@ Inductive label :=
 | LEnq (i : nat) | LEnqTimeout (i : nat) | LCtxFire (i : nat) | LClean (i : nat) | LPost (i : nat)
 | LSendTake | LConnDown
 | LPeerPkt (id pay : N) | LLookup (r : nat) | LDeliver (r : nat) | LGiveUp (r : nat)
-| LIdleClose.
+| LIdleClose
+| LCancel (i : nat) | LFilterErr (i : nat).
 
 Fixpoint upd {A} (l : list A) (i : nat) (x : A) : list A :=
   match l, i with
@@ -265,6 +267,18 @@ Definition step (c : cfg) (s : state) (l : label) : option state :=
                 then Some (mkst (now s) (calls s) (rcvs s) (queueLen s) (invokeNum s) (resp s) false (lock s) (sendq s) (wire s) (sent s) (tr s))
                 else None
       | Some _ => None end
+  | LCancel i =>   (* ctx.Done() of a context the caller cancelled (at any time before): noticed at the wait *)
+      match nth_error (calls s) i with
+      | Some k => match k_pc k with
+                  | Waiting => Some (with_calls s (upd (calls s) i (set_out k Cancelled (k_e k))))
+                  | _ => None end
+      | None => None end
+  | LFilterErr i =>   (* a client filter returns an error without invoking: nothing is registered, postInvoke still runs *)
+      match nth_error (calls s) i with
+      | Some k => match k_pc k with
+                  | Pre => Some (with_calls s (upd (calls s) i (set_full k)))
+                  | _ => None end
+      | None => None end
   end.
 
 Fixpoint run (c : cfg) (s : state) (ls : list label) : option state :=
@@ -287,6 +301,8 @@ Record scen := mkscen {
   sc_cfg : cfg; sc_conn : connmode; sc_acts : list act; sc_callers : nat; sc_calls : nat; sc_eff : N;
   sc_gaps : list N (* pause after the j-th call of a sequential caller; the last one repeats *);
   sc_oneway : bool;
+  sc_cancel : option N (* the caller cancels its context this long after the start of the call *);
+  sc_reject : nat (* n > 0: the client filter rejects every call whose index is n-1 modulo n *);
   sc_prime : bool (* concurrent callers only: one call alone first, the callers start when it has returned *) }.
 
 (* scheduler state: packets the peer will emit (time, id, payload), connection losses to deliver *)
@@ -336,12 +352,15 @@ Definition want_start (sc : scen) (s : state) : bool :=
     end
   else false.
 
-Definition call_label (c : cfg) (s : state) (i : nat) (k : call) : label :=
+Definition call_label_r (rejected : bool) (c : cfg) (s : state) (i : nat) (k : call) : label :=
   match k_pc k with
-  | Init => LPre i | Pre => if (qmax c <? queueLen s)%Z then LQueueFull i else LReg i | Reg => LLock i | Dialing => LDialTimeout i
+  | Init => LPre i
+  | Pre => if rejected then LFilterErr i else if (qmax c <? queueLen s)%Z then LQueueFull i else LReg i
+  | Reg => LLock i | Dialing => LDialTimeout i
   | Enq => if N.of_nat (length (sendq s)) <? qcap c then LEnq i else LEnqTimeout i
   | Waiting => LCtxFire i | Done => LClean i | Cleaned => LPost i | Returned => Tick
   end.
+Definition is_rejected (n i : nat) : bool := match n with O => false | S m => Nat.eqb (Nat.modulo i n) m end.
 Definition rcv_label (s : state) (r : nat) (x : rcv) : label :=
   match r_pc x with
   | RNew => LLookup r
@@ -373,6 +392,15 @@ Definition sched (sc : scen) (s : state) (e : env) : label * env :=
   match find_idx (rcv_urgent c s) (rcvs s) 0 with
   | Some (r, x) => (rcv_label s r x, e)
   | None =>
+  (* the caller's own cancellation *)
+  let cancel_lbl : option label :=
+    match sc_cancel sc with
+    | Some cd => match find_idx (fun k => match k_pc k with Waiting => k_start k + cd <=? now s | _ => false end) (calls s) 0 with
+                 | Some (i, _) => Some (LCancel i) | None => None end
+    | None => None end in
+  match cancel_lbl with
+  | Some l => (l, e)
+  | None =>
   (* the peer's side of connection establishment *)
   let dial_env : option (label * env) :=
     match find_idx (fun k => match k_pc k with Dialing => true | _ => false end) (calls s) 0, sc_conn sc with
@@ -401,10 +429,10 @@ Definition sched (sc : scen) (s : state) (e : env) : label * env :=
         let junk := if a_junk a then [(now s, 1000000 + id_of i, 0)] else [] in
         (LSendTake, mkenv (e_pend e ++ junk ++ rep) (if a_down a then 1 else 0))
       else
-        match find_idx (call_urgent c s) (calls s) 0 with Some (i, k) => (call_label c s i k, e) | None => (idle_or_tick c s, e) end
+        match find_idx (call_urgent c s) (calls s) 0 with Some (i, k) => (call_label_r (is_rejected (sc_reject sc) i) c s i k, e) | None => (idle_or_tick c s, e) end
   | [] =>
-      match find_idx (call_urgent c s) (calls s) 0 with Some (i, k) => (call_label c s i k, e) | None => (idle_or_tick c s, e) end
-  end end end end end.
+      match find_idx (call_urgent c s) (calls s) 0 with Some (i, k) => (call_label_r (is_rejected (sc_reject sc) i) c s i k, e) | None => (idle_or_tick c s, e) end
+  end end end end end end.
 
 Definition finished (sc : scen) (s : state) (e : env) : bool :=
   Nat.eqb (length (calls s)) (expected_calls sc)
@@ -429,7 +457,7 @@ Inductive ocls := OReply | OTimeout | OError | OSent | OOther.
 Definition ocls_eqb (a b : ocls) : bool :=
   match a, b with OReply, OReply | OTimeout, OTimeout | OError, OError | OSent, OSent | OOther, OOther => true | _, _ => false end.
 Definition cls_of (o : option outcome) : ocls :=
-  match o with Some (Reply _) => OReply | Some Timeout => OTimeout | Some Error => OError | Some Sent => OSent | None => OOther end.
+  match o with Some (Reply _) => OReply | Some Timeout => OTimeout | Some Error => OError | Some Sent => OSent | Some Cancelled => OTimeout | None => OOther end.
 
 Fixpoint insert_sorted (x : N) (l : list N) : list N :=
   match l with [] => [x] | y :: t => if x <=? y then x :: l else y :: insert_sorted x t end.
@@ -545,7 +573,7 @@ Definition events_of (s : state) (l : label) (s' : state) : list event :=
   match l with
   | Start _ _ => [EStart (length (calls s))]
   | LReg i => [EPre i (id_of i)]
-  | LQueueFull i => [EPre i (id_of i); EPost i]
+  | LQueueFull i | LFilterErr i => [EPre i (id_of i); EPost i]
   | LClean i => [EPost i]
   | LPost i => match nth_error (calls s') i with
                | Some k => [ERet i (cls_of (k_out k)) (match k_out k with Some (Reply p) => p | _ => 0 end)
@@ -581,12 +609,12 @@ Definition model_held (sc : scen) : N :=
 (* ---------- a correspondence case ---------- *)
 Record c09case := mkcase {
   cc_cfg : cfg; cc_conn : connmode; cc_acts : list act; cc_callers : nat; cc_calls : nat; cc_eff : N; cc_gaps : list N;
-  cc_oneway : bool; cc_prime : bool; cc_predict : bool;
+  cc_oneway : bool; cc_cancel : option N; cc_reject : nat; cc_prime : bool; cc_predict : bool;
   cc_conns : option N (* connections the peer accepted, where the script makes that number definite (idle periods) *);
   cc_held : option N (* largest number of reply receivers seen blocked at once, when sampled *); cc_obs : list (ocls * N); cc_events : list event; cc_final : N * N * N }.
 
 Definition c09_check (x : c09case) : bool :=
-  let sc := mkscen (cc_cfg x) (cc_conn x) (cc_acts x) (cc_callers x) (cc_calls x) (cc_eff x) (cc_gaps x) (cc_oneway x) (cc_prime x) in
+  let sc := mkscen (cc_cfg x) (cc_conn x) (cc_acts x) (cc_callers x) (cc_calls x) (cc_eff x) (cc_gaps x) (cc_oneway x) (cc_cancel x) (cc_reject x) (cc_prime x) in
   (if cc_predict x then predicted sc (cc_obs x) && model_trace_ok sc &&
                         match cc_held x with Some h => model_held sc <=? h | None => true end &&
                         match cc_conns x with Some n => (let '(s, _, _) := canonical sc in conns (tr s)) =? n | None => true end
